@@ -303,8 +303,10 @@ def check_clauses(ctx, case, res, rng, exact, tol, tag):
     v = res[1]
     want = union_volume(pts)
 
-    def differs(a, b):
-        return (Fraction(a) != Fraction(b)) if exact else abs(a - b) > tol
+    def differs(a, b, c2=None):
+        # a variant that adds a point is compared exactly only if the float computation on it is exact as well
+        ex = exact and (c2 is None or exactness(c2, bounds))
+        return (Fraction(a) != Fraction(b)) if ex else abs(a - b) > (tol or 1e-9)
 
     def variant_failed(r2, c2, label):
         if r2[0] == "timeout":
@@ -363,7 +365,7 @@ def check_clauses(ctx, case, res, rng, exact, tol, tag):
         c2 = with_set(case, st[:pos] + [(nid, worse, 0.0)] + st[pos:])
         r2 = run_impl(c2)
         ctx.count()
-        if r2[0] == "ok" and differs(r2[1], v):
+        if r2[0] == "ok" and differs(r2[1], v, c2):
             report("hypervolume:dominated-point-changes-value", "adding %r (no better than %r anywhere) changes the value %r -> %r" % (worse, m[1], v, r2[1]), c2)
         else:
             variant_failed(r2, c2, "dominated point")
@@ -379,7 +381,7 @@ def check_clauses(ctx, case, res, rng, exact, tol, tag):
         c2 = with_set(case, st[:pos] + [(nid, newp, 0.0)] + st[pos:])
         r2 = run_impl(c2)
         ctx.count()
-        if r2[0] == "ok" and (r2[1] < v - (0 if exact else tol)):
+        if r2[0] == "ok" and (r2[1] < v - (0 if (exact and exactness(c2, bounds)) else (tol or 1e-9))):
             report("hypervolume:decreases-when-point-added", "adding %r decreases the value %r -> %r" % (newp, v, r2[1]), c2)
         else:
             variant_failed(r2, c2, "added point")
@@ -462,7 +464,7 @@ def check_reuse(ctx, case, res, rng, exact, tol, tag):
             if bnds is not None:
                 extra = plat.mk_solution(p, [float(lo) + float(hi - lo) * rng.choice([0.0, 0.25, 0.5, 1.0]) for lo, hi in zip(*bnds)], 0.0)
                 v4 = hv.calculate(st + [extra])
-                if v4 < v1 - (0 if exact else tol):
+                if v4 < v1 - (tol or 1e-9):
                     viol("hypervolume:changes-on-re-evaluation", "same objects plus one more after earlier calls: %r then %r (decreases)" % (v1, v4))
             v5 = Hypervolume(reference_set=ref).calculate(st) if ref is not None else Hypervolume(minimum=list(case["bounds"][1]), maximum=list(case["bounds"][2])).calculate(st)
             if differs(v5, v1):
@@ -572,34 +574,50 @@ def gen_grid_case(rng, nobjs, dirs, maxn):
 
 
 def gen_float_case(rng, nobjs, dirs, maxn):
+    big = rng.random() < 0.35       # huge common magnitude, small spread: (o - min)/(max - min) is accurate there, o*scale - min*scale is not
     bnd = []
     for _ in range(nobjs):
-        lo = rng.uniform(-3, 3)
-        bnd.append((lo, lo + rng.uniform(0.1, 5)))
+        if big:
+            lo = rng.choice([1e15, -2e15, 3e15, 4e12, -4e12, 2.0 ** 50, -2.0 ** 45, 7e13])
+            bnd.append((lo, lo + rng.choice([3.0, 6.0, 5.0, 1.0, 7.0, 12.0])))
+        else:
+            lo = rng.uniform(-3, 3)
+            bnd.append((lo, lo + rng.uniform(0.1, 5)))
     n = rng.randrange(0, maxn + 1)
+
+    def val(lo, hi):
+        if big and rng.random() < 0.7:
+            return lo + rng.randrange(-2, int((hi - lo) * 4) + 3) / 4.0
+        return rng.uniform(lo - 0.3 * (hi - lo), hi + 0.3 * (hi - lo))
     members = []
     for sid in range(n):
         if members and rng.random() < 0.2:
             m = rng.choice(members)
-            o = [x if rng.random() < 0.5 else rng.uniform(lo - 0.3 * (hi - lo), hi + 0.3 * (hi - lo)) for x, (lo, hi) in zip(m[1], bnd)]
+            o = [x if rng.random() < 0.5 else val(lo, hi) for x, (lo, hi) in zip(m[1], bnd)]
         else:
-            o = [rng.uniform(lo - 0.3 * (hi - lo), hi + 0.3 * (hi - lo)) for (lo, hi) in bnd]
+            o = [val(lo, hi) for (lo, hi) in bnd]
         members.append((sid, o, 0.0 if rng.random() < 0.9 else 0.25))
-    return {"nobjs": nobjs, "dirs": list(dirs), "bounds": ("mm", [b[0] for b in bnd], [b[1] for b in bnd]), "set": members}
+    if big and members and rng.random() < 0.5:
+        members.append((n, [hi if mx else lo for (lo, hi), mx in zip(bnd, dirs)], 0.0))        # a solution on the ideal point
+    return {"nobjs": nobjs, "dirs": list(dirs), "bounds": ("mm", [b[0] for b in bnd], [b[1] for b in bnd]), "set": members, "large_offset": big}
 
 
-# "large offset" family: every objective shifted by a huge common offset (the ranges stay 1/2 .. 8 units, powers of two).
+# "large offset" family: every objective o replaced by m*o + O with a huge common offset O (or 0) and m in {1,3,5,6,7}, so the ranges are
+# 2^j, 3*2^j, 5*2^j, ... and the normalised values stay the same dyadics.
 # The unchanged normalisation (o - min) / (max - min) is EXACT on these inputs (o - min is exact, the division by a power of
 # two is exact) although |o| / range is ~1e12..1e15; an algebraically equivalent o*scale - min*scale is not.
 OFFSETS = [2.0 ** 40, -2.0 ** 40, 2.0 ** 45, -2.0 ** 45, 2.0 ** 50, -2.0 ** 50, float(round(1e15)), -float(round(1e15)), 4e12, -4e12]
 
 
+MULTS = [1.0, 1.0, 3.0, 5.0, 6.0, 7.0]        # ranges 3*2^j, 5*2^j, ...: the division is exact whenever the quotient is dyadic
+
+
 def _shift_vec(v, off):
-    """v + off coordinate-wise, or None if some sum is not a binary64 number"""
+    """m*v + off coordinate-wise (off = list of (offset, multiplier)), or None if some result is not a binary64 number"""
     out = []
-    for x, o in zip(v, off):
-        y = x + o
-        if Fraction(y) != Fraction(x) + Fraction(o):
+    for x, (o, m) in zip(v, off):
+        y = m * x + o
+        if Fraction(y) != Fraction(m) * Fraction(x) + Fraction(o):
             return None
         out.append(y)
     return out
@@ -618,7 +636,7 @@ def _shift_members(ms, off):
 def shift_case(case, rng):
     n = case["nobjs"]
     for attempt in range(6):
-        off = [rng.choice(OFFSETS if attempt < 4 else OFFSETS[:2]) for _ in range(n)]
+        off = [(rng.choice((OFFSETS + [0.0, 0.0]) if attempt < 4 else OFFSETS[:2]), rng.choice(MULTS)) for _ in range(n)]
         st = _shift_members(case["set"], off)
         if st is None:
             continue
@@ -768,7 +786,7 @@ def run(ctx):
     ctx.coverage["calls_through_long_lived_indicator_instances"] = REUSE["long_lived_calls"]
     ctx.rule = ("function cases on dyadic grids (coordinates k/8 or k/4, bounds [0,1],[0,2],[-1,1],[0,4],[1,2],[-2,2],[0,.5] or a reference set spanning them): "
                 "2-5 objectives x every direction vector, 0-%d listed solutions with duplicates, single-coordinate ties, values on and beyond both bounds, infeasible members, "
-                "the same object listed twice, reference objects listed in the set, rejected bounds; a 'large offset' family (the same sets with every objective shifted by +-2^40, 2^45, 2^50, 1e15 or 4e12, "
+                "the same object listed twice, reference objects listed in the set, rejected bounds; a 'large offset' family (the same sets with every objective mapped to m*o+O, O in {0, +-2^40, 2^45, 2^50, 1e15, 4e12}, m in {1,3,5,6,7} (ranges 3*2^j, 5*2^j, ... too), "
                 "explicit bounds and reference sets shifted alike: the unchanged (o-min)/(max-min) is exact there); a case is kept only if every float operation is exact "
                 "(decided on Fractions: o-min, max-min and the quotient are binary64 numbers, clipped coordinates multiples of 2^-h with nobjs*h <= 52), else discarded and counted. "
                 "non-trivial = at least two distinct points enter the volume AND (a coordinate tie, a repeated object, a duplicate, an infeasible member, a clipped or dropped "
